@@ -206,25 +206,33 @@ def run(repo, rep):
     # the add / sub derivation is carried out in double (TFLite add.cc / sub.cc: `const double twice_max_input_scale = 2 * std::max(...)`):
     # the scales reach the helper as the reader's np.float32, and np.float32 (op) Python int / float stays float32 under NumPy >= 2
     # (NEP 50), so every scale parameter must be widened before it enters arithmetic
-    fn = sc.func("simplified_elementwise_add_sub_scale")
-    params = [a.arg for a in fn.args.args if a.arg.endswith("_scale")]
-    if len(params) != 3:
-        raise AnalysisError(f"simplified_elementwise_add_sub_scale: scale parameters {params}")
-    widened_at = {}
-    for st in fn.body:
-        if isinstance(st, ast.Assign) and len(st.targets) == 1 and isinstance(st.targets[0], ast.Name) and isinstance(st.value, ast.Call) and call_name(st.value) in wide \
-                and len(st.value.args) == 1 and isinstance(st.value.args[0], ast.Name) and st.value.args[0].id == st.targets[0].id:
-            widened_at.setdefault(st.targets[0].id, st.lineno)
-    raw_use = []
-    for x in ast.walk(fn):
-        if isinstance(x, (ast.BinOp, ast.Compare)) or (isinstance(x, ast.Call) and call_name(x) in ("max", "min")):
-            ops = ([x.left, x.right] if isinstance(x, ast.BinOp) else [x.left] + list(x.comparators) if isinstance(x, ast.Compare) else list(x.args))
-            for o in ops:
-                if isinstance(o, ast.Name) and o.id in params and not (o.id in widened_at and widened_at[o.id] < x.lineno):
-                    raw_use.append((o.id, x.lineno))
-    rep.check(not raw_use, "C09-b", "ethosu/vela/scaling.py:simplified_elementwise_add_sub_scale", "every scale parameter is widened to double before it enters the add / sub derivation",
-              f"parameters used as they arrive: {sorted(set(n_ for n_, _ in raw_use))}: with the reader's np.float32 scales the whole derivation runs in float32 under NumPy >= 2 "
-              "(demonstrated end to end: ADD with scales 0.0123, 0.0456 -> 0.0789: OPA_SCALE (1158510848, 13), reference (1158510858, 13); OFM_SCALE off by 2^-24.9)")
+    # elementwise_mul_scale is deliberately not in this list: TFLite's mul.cc evaluates `input1 scale * input2 scale / output scale` on float
+    # operands (float arithmetic, then converted to double), TFLite Micro casts each to double first; Vela computes what its callers pass
+    # (np.float32 from the command stream generator, np.double from lstm / leaky-relu conversions). A rule demanding double was a false alarm.
+    for fname, demo in (("simplified_elementwise_add_sub_scale", "demonstrated end to end: ADD with scales 0.0123, 0.0456 -> 0.0789: OPA_SCALE (1158510848, 13), reference (1158510858, 13); OFM_SCALE off by 2^-24.9"),):
+        fn = sc.func(fname)
+        params = [a.arg for a in fn.args.args if a.arg.endswith("_scale")]
+        if len(params) != 3:
+            raise AnalysisError(f"{fname}: scale parameters {params}")
+        widened_at = {}
+        for st in fn.body:
+            if isinstance(st, ast.Assign) and len(st.targets) == 1 and isinstance(st.targets[0], ast.Name) and isinstance(st.value, ast.Call) and call_name(st.value) in wide \
+                    and len(st.value.args) == 1 and isinstance(st.value.args[0], ast.Name) and st.value.args[0].id == st.targets[0].id:
+                widened_at.setdefault(st.targets[0].id, st.lineno)
+        raw_use = []
+        n_arith = 0
+        for x in ast.walk(fn):
+            if isinstance(x, (ast.BinOp, ast.Compare)) or (isinstance(x, ast.Call) and call_name(x) in ("max", "min")):
+                ops = ([x.left, x.right] if isinstance(x, ast.BinOp) else [x.left] + list(x.comparators) if isinstance(x, ast.Compare) else list(x.args))
+                n_arith += 1
+                for o in ops:
+                    # a parameter wrapped in a widening call at the use (`float(input_scale) * ..`) is a Call operand, not a Name
+                    if isinstance(o, ast.Name) and o.id in params and not (o.id in widened_at and widened_at[o.id] < x.lineno):
+                        raw_use.append((o.id, x.lineno))
+        if not n_arith:
+            raise AnalysisError(f"{fname}: no arithmetic on the scales found")
+        rep.check(not raw_use, "C09-b", f"ethosu/vela/scaling.py:{fname}", "every scale parameter is widened to double before it enters the derivation (the reference kernels derive these values in double)",
+                  f"parameters used as they arrive: {sorted(set(n_ for n_, _ in raw_use))}: with the reader's np.float32 scales the whole derivation runs in float32 under NumPy >= 2 ({demo})")
     adv = sc.func("advanced_elementwise_add_sub_scale")
     cs_ = [c_ for c_ in ast.walk(adv) if isinstance(c_, ast.Call) and call_name(c_) == "simplified_elementwise_add_sub_scale"]
     arith = [x for x in ast.walk(adv) if isinstance(x, ast.BinOp)]
@@ -436,6 +444,10 @@ def run(repo, rep):
     rule_round5(repo, rep)
     rule_pool_scale_fits(repo, rep)
     rule_multiplier_fits_int32(repo, rep)
+    rep.clause("C09-l", "ExplicitScaling is constructed as (per_channel, shift, multiplier): shift-named values second, scale / multiplier-named values third")
+    rep.clause("C09-m", "the softmax input multiplier is clamped to 2^31 - 1 (the largest Q31 value), not 2^31")
+    rep.clause("C09-n", "the global average-pool divisor (OFM_SCALE) is used only when no side of the pool is padded")
+    rule_round7(repo, rep)
     from .shared import loop_shared_clone_lint
 
     rep.clause("C09-i", "quantisation records that get per-iteration values (the per-group slices of per-channel weight scales) are cloned per iteration: a record cloned before the loop is shared by every tensor it was given to")
@@ -649,3 +661,66 @@ def rule_multiplier_fits_int32(repo, rep):
     rep.check(not wrong, "C09-a", "ethosu/vela/scaling.py:quantise_scale", f"the multiplier is in [2^30, 2^31) and denotes the scale, also for significands that round up to 1 ({pts} probes)",
               f"quantise_scale({wrong[0][0]!r}) = ({wrong[0][1]}, {wrong[0][2]}): 2^31 is no int32; the reference halves it and adjusts the shift. fp_math.multiply_by_quantized_multiplier overflows "
               "(demonstrated: LEAKY_RELU int8 with ifm scale (1 + 2^-23) 2^-7, alpha 1 - 2^-23, ofm scale 2^-7 aborts with OverflowError)" if wrong else "")
+
+
+def rule_round7(repo, rep):
+    """(l) ExplicitScaling(per_channel, shift, multiplier): positional constructions put a shift-named value second and a scale / multiplier
+    named value third (the scaling helpers return (multiplier, shift), the opposite order). (m) the softmax input multiplier saturates at
+    2^31 - 1 (a value of 2^31 is no Q31 number: quantise_scale degrades it to the zero multiplier). (n) the average-pool divisor may be
+    applied globally (OFM_SCALE) only if no side is padded: border windows of a padded pool have fewer elements."""
+    import re as _re
+
+    n = 0
+    for mname in ("tflite_graph_optimiser", "lstm", "softmax", "graph_optimiser_util", "tosa_graph_optimiser"):
+        try:
+            m = repo.mod(mname)
+        except Exception:
+            continue
+        for q, fn in m.functions.items():
+            for c in ast.walk(fn):
+                if isinstance(c, ast.Call) and call_name(c) == "ExplicitScaling" and len(c.args) == 3:
+                    def leaf(e):
+                        if isinstance(e, ast.List) and len(e.elts) == 1:
+                            e = e.elts[0]
+                        return set(_re.split(r"[^a-z0-9]+", e.id.lower())) if isinstance(e, ast.Name) else set()
+
+                    t2, t3 = leaf(c.args[1]), leaf(c.args[2])
+                    is_m = lambda t: bool(t & {"scale", "multiplier", "mult", "multipliers", "scales"})  # noqa: E731
+                    is_s = lambda t: bool(t & {"shift", "shifts"})  # noqa: E731
+                    if is_m(t2) or is_s(t2) or is_m(t3) or is_s(t3):
+                        n += 1
+                        rep.check(not is_m(t2) and not is_s(t3), "C09-l", f"ethosu/vela/{mname}.py:{q}", f"`{str(norm(c))[:70]}`: (per_channel, shift, multiplier) order",
+                                  f"`{str(norm(c.args[1]))}` is passed as the shift and `{str(norm(c.args[2]))}` as the multiplier: OFM_SCALE gets the shift value as its multiplier (e.g. 40) and the low 6 bits of the multiplier as its shift")
+    if n < 6:
+        raise AnalysisError(f"ExplicitScaling: {n} positional constructions with named operands")
+    sm = repo.mod("softmax")
+    f = sm.func("SoftMax.generate_exp_table")
+    mins = [c for c in ast.walk(f) if isinstance(c, ast.Call) and call_name(c) == "min" and len(c.args) == 2 and "beta" in str(norm(c))]
+    if len(mins) != 1:
+        raise AnalysisError("generate_exp_table: the clamp of the input multiplier was not found")
+    env = {}
+    for a in f.body:
+        if isinstance(a, ast.Assign) and len(a.targets) == 1 and isinstance(a.targets[0], ast.Name) and isinstance(a.value, ast.Constant) and isinstance(a.value.value, int):
+            env[a.targets[0].id] = a.value.value
+    vals = []
+    for arg in mins[0].args:
+        if "beta" in str(norm(arg)):
+            continue
+        e = arg
+        while isinstance(e, ast.Call) and call_name(e) in ("np.double", "numpy.double", "float", "np.float64") and len(e.args) == 1:
+            e = e.args[0]
+        try:
+            vals.append(eval(compile(ast.Expression(e), "<clamp>", "eval"), {"__builtins__": {}}, dict(env)))
+        except Exception:
+            vals.append(None)
+    rep.check(vals == [float((1 << 31) - 1)] or vals == [(1 << 31) - 1], "C09-m", "ethosu/vela/softmax.py:SoftMax.generate_exp_table", "the input multiplier saturates at 2^31 - 1",
+              f"clamp value {vals}: at 2^31 quantise_scale sees shift -1 and returns the zero multiplier (0, 16): for beta * input_scale >= 32 every exp table entry becomes 0x7fffffff")
+    g = repo.mod("register_command_stream_generator").func("generate_pooling_op")
+    asg = [a for a in ast.walk(g) if isinstance(a, ast.Assign) and len(a.targets) == 1 and str(norm(a.targets[0])) == "use_global_scale"]
+    asg = [a for a in asg if "sub_op_type" in str(norm(a.value))]
+    if len(asg) != 1:
+        raise AnalysisError("generate_pooling_op: use_global_scale not found")
+    t = str(norm(asg[0].value))
+    all_sides = "sum(npu_op.padding) == 0" in t or all(f"padding.{sd}" in t for sd in ("top", "left", "bottom", "right")) or "all(" in t and "npu_op.padding" in t
+    rep.check(all_sides, "C09-n", "ethosu/vela/register_command_stream_generator.py:generate_pooling_op", "the global average-pool divisor is used only for pools without padding on any side",
+              f"`{t[:120]}`: a pool padded at the bottom / right only (SAME padding of an even kernel) divides its border windows by the full window size (2x2, acc 200: 50 instead of 100)")
